@@ -39,7 +39,7 @@ BOUND = ('round trip: names {n, session_id, all RFC 6265 token punctuation, N} x
          'one letter, non-ASCII, separators, bytes) x attribute sets (4) x {through the application, response/request '
          'objects directly}; all singles, all ordered pairs of unsigned values and seeded random triples in one header. '
          'Forgery: for 3 (quick) / 12 (thorough) signed cookies, EVERY position of the signed value x {substitution by '
-         '6 (quick) / 10 letters incl. non-base64 and non-ASCII, bit flip, case flip, deletion, insertion of 3 letters, '
+         '7 (quick) / 10 letters incl. non-base64 and non-ASCII, bit flip, case flip, deletion, insertion of 3 letters, '
          'truncation}, every signature prefix, signature extensions, signature/payload swap with a second cookie, 6 '
          'other secrets, 9 attacker-built values (marker payload with original/empty/unkeyed/wrong-key signatures, every '
          'signature prefix) x {quoted, raw} delivery; exhaustive over that space')
@@ -73,8 +73,8 @@ SIGNED = ["lit:'text'", "lit:''", "lit:'é€\\U0001d11e;, \"q\" \\\\'", 'lit:0'
 SECRETS = ['s3cret', 'k', 'ключ€', 'a b;c?!', b'\x00\xffkey', 'S3CRET']
 OPTS = {'none': {}, 'path': {'path': '/'}, 'many': {'path': '/a', 'max_age': 3600, 'httponly': True, 'domain': 'example.org'},
         'exp': {'expires': 1700000000, 'secure': True}}
-SUBS_QUICK = ['A', 'Q', '=', '?', '!', '-']
-SUBS_MORE = ['/', '+', ' ', 'é']
+SUBS_QUICK = ['A', 'Q', '=', '?', '!', '-', 'é']
+SUBS_MORE = ['/', '+', ' ', 'ÿ']
 INS = ['A', '=', '?']
 OTHER_SECRETS = {'s3cret': ['S3cret', 's3cre', 's3cret ', 's3crett', 'x', b's3cret\xff'],
                  'ключ€': ['ключ', 'kлюч€', 'ключ€€', 'x', 'ключ€ ', b'\xff'],
@@ -279,12 +279,15 @@ def _run_rt(ombott, case):
         return fail('R0.one_set_cookie_each', set_cookie=scs, expected=len(cookies))
     if problem:
         return fail('R1.read_failed', set_cookie=scs, **problem)
+    failing = []
     for i, (c, g) in enumerate(zip(cookies, got)):
         val = make_val(c['value']) if c['secret'] is not None else c['value']
         if not _same(g, val):
-            return fail('R1.roundtrip', index=i, name=c['name'], signed=c['secret'] is not None, value=c['value'],
-                        expected=repr(val), observed=('<absent>' if g is ABSENT else repr(g)),
-                        observed_text=(g if isinstance(g, str) else None), set_cookie=scs)
+            failing.append(dict(index=i, name=c['name'], signed=c['secret'] is not None, value=c['value'],
+                                expected=repr(val), observed=('<absent>' if g is ABSENT else repr(g)),
+                                observed_text=(g if isinstance(g, str) else None)))
+    if failing:             # every cookie that did not come back is listed, so that one defect cannot hide another
+        return fail('R1.roundtrip', failing=failing, set_cookie=scs)
     return None
 
 
@@ -360,7 +363,7 @@ def _tamper(ombott, case, v, sig, msg):
         if k == 'swap':
             c2 = _ck(name, "lit:'other value'", secret)
         else:
-            c2 = _ck(name, case['value'], t['secret2'])
+            c2 = _ck(name, "lit:'value signed with the other secret'", t['secret2'])
         scs2, _g, problem = _exchange(ombott, 'direct', [c2], cookie_spec.browser_cookie_header, [])
         if problem or len(scs2) != 1:
             return None
@@ -430,31 +433,30 @@ def run_case(case):
     return _run_forge(ombott, case)
 
 
-def _failing_cookie(case, failure):
-    if case.get('kind') != 'rt' or failure.get('clause') != 'R1.roundtrip':
+def _explain(case, failure):
+    """For a round-trip failure: the known-defect class of EVERY cookie that failed, or None if any is unexplained."""
+    if case.get('kind') != 'rt' or failure.get('clause') != 'R1.roundtrip' or not failure.get('failing'):
         return None
-    c = case['cookies'][failure['index']]
-    return c if c['secret'] is None else None
-
-
-def _is_empty_finding(case, failure):
-    c = _failing_cookie(case, failure)
-    return bool(c) and c['value'] == '' and failure.get('observed') == '<absent>'
-
-
-def _is_wide_finding(case, failure):
-    c = _failing_cookie(case, failure)
-    if not c or not any(ord(ch) > 0xFF for ch in c['value']):
-        return False
-    # exactly the inherited behaviour: the UTF-8 bytes of the value seen as Latin-1 text
-    mangled = ''.join(ch if ord(ch) <= 0xFF else ch.encode('utf8').decode('latin1') for ch in c['value'])
-    return failure.get('observed_text') == mangled
+    classes = set()
+    for f in failure['failing']:
+        c = case['cookies'][f['index']]
+        v = c['value']
+        if c['secret'] is not None:
+            return None
+        if v == '' and f['observed'] == '<absent>':
+            classes.add('empty')
+        elif any(ord(ch) > 0xFF for ch in v) and f['observed_text'] == ''.join(
+                ch if ord(ch) <= 0xFF else ch.encode('utf8').decode('latin1') for ch in v):
+            classes.add('wide')     # exactly the inherited behaviour: UTF-8 bytes of the wide characters seen as Latin-1
+        else:
+            return None
+    return classes
 
 
 FINDINGS = {
     # D15a: get_cookie returns `value or default`, so an unsigned cookie whose value is '' reads as absent
-    'D15-unsigned-empty-value-reads-absent': _is_empty_finding,
+    'D15-unsigned-empty-value-reads-absent': lambda case, failure: 'empty' in (_explain(case, failure) or ()),
     # D15b: http.cookies leaves code points > U+00FF unescaped, headerlist sends them as UTF-8 and get_cookie does
-    # not recode: the unsigned value comes back as its UTF-8 bytes seen as Latin-1
-    'D15-unsigned-value-above-U+00FF-mangled': _is_wide_finding,
+    # not recode: the unsigned value comes back with those characters as their UTF-8 bytes seen as Latin-1
+    'D15-unsigned-value-above-U+00FF-mangled': lambda case, failure: 'wide' in (_explain(case, failure) or ()),
 }
